@@ -109,6 +109,8 @@ pub struct EndpointOpts {
     pub tcp_timeout: Option<Duration>,
     /// ICMP forwarding bound to this interface; None = not configured
     pub icmp_interface: Option<String>,
+    /// udp_connections_timeout (idle timeout of UDP flows); None = the default
+    pub udp_timeout: Option<Duration>,
 }
 
 impl Default for EndpointOpts {
@@ -127,6 +129,7 @@ impl Default for EndpointOpts {
             reverse_proxy: None,
             tcp_timeout: None,
             icmp_interface: None,
+            udp_timeout: None,
         }
     }
 }
@@ -190,6 +193,9 @@ pub fn start_endpoint(rt: &tokio::runtime::Runtime, o: &EndpointOpts) -> Endpoin
         }
         if let Some(t) = o.tcp_timeout {
             b = b.tcp_connections_timeout(t);
+        }
+        if let Some(t) = o.udp_timeout {
+            b = b.udp_connections_timeout(t);
         }
         if let Some(i) = &o.icmp_interface {
             b = b.icmp(trusttunnel::settings::IcmpSettings::builder().interface_name(i).request_timeout(Duration::from_secs(3)).build().expect("icmp settings"));
